@@ -4,7 +4,9 @@
 (* (property C55), written from the function's doc-string and the property. *)
 (*                                                                         *)
 (* Grain: one step = one clock cycle.                                      *)
-(*   Env  : the strobe input of the cycle (any value in any cycle).        *)
+(*   Env  : the strobe input of the cycle (any value in any cycle) and the  *)
+(*          reset of the clock domain (any cycle, any length): it wipes the *)
+(*          memory of earlier strobes (ghost `hist` is cut there too).      *)
 (*   Ref  : a hold-off counter `rem` ("cycles the output still has to stay *)
 (*          high, this one included"), re-armed by every strobe.           *)
 (*   Prop : the property as a statement over the *history* of strobes      *)
@@ -25,9 +27,10 @@ VARIABLES n,          \* configuration: to_cycles
           out0,       \* Ref: undelayed output of the cycle just taken
           out1,       \* Ref: delayed output of the cycle just taken (= out0 one cycle earlier)
           strobe,     \* Env: input applied in the cycle just taken
+          rst,        \* Env: the clock domain's reset was asserted in the cycle just taken
           hist        \* ghost: the last MaxN+1 inputs, newest first
 
-vars == <<n, allowDelay, rem, out0, out1, strobe, hist>>
+vars == <<n, allowDelay, rem, out0, out1, strobe, rst, hist>>
 
 Min(a, b) == IF a < b THEN a ELSE b
 
@@ -36,21 +39,24 @@ Configs == (1..MaxN) \X BOOLEAN
 InitCfg(nn, ad) ==
     /\ n = nn /\ allowDelay = ad
     /\ rem = 0 /\ out0 = FALSE /\ out1 = FALSE
-    /\ strobe = FALSE /\ hist = <<>>
+    /\ strobe = FALSE /\ rst = FALSE /\ hist = <<>>
 
 Init == \E c \in Configs : InitCfg(c[1], c[2])
 
-\* One clock cycle with input s.
-Step(s) ==
-    LET r == IF s THEN n ELSE IF rem > 0 THEN rem - 1 ELSE 0
+\* One clock cycle with strobe input s and domain-reset input x.  A domain reset asserted in a cycle
+\* wipes the stretcher's memory at the end of that cycle: the next cycle only sees its own strobe.
+Step(s, x) ==
+    LET base == IF rst THEN 0 ELSE rem
+        r    == IF s THEN n ELSE IF base > 0 THEN base - 1 ELSE 0
     IN /\ strobe' = s
+       /\ rst' = x
        /\ rem' = r
        /\ out0' = (r > 0)
-       /\ out1' = out0
-       /\ hist' = <<s>> \o SubSeq(hist, 1, Min(Len(hist), MaxN))
+       /\ out1' = (~rst /\ out0)
+       /\ hist' = <<s>> \o (IF rst THEN <<>> ELSE SubSeq(hist, 1, Min(Len(hist), MaxN)))
        /\ UNCHANGED <<n, allowDelay>>
 
-Next == \E s \in BOOLEAN : Step(s)
+Next == \E s \in BOOLEAN, x \in BOOLEAN : Step(s, x)
 
 Spec == Init /\ [][Next]_vars
 
@@ -75,5 +81,5 @@ WindowDelayed   == out1 = (\E k \in 2..(n + 1) : StrobeAgo(k))
 \* A strobe during a stretched pulse restarts the full length (no re-trigger is dropped).
 RetriggerRestarts == [][strobe' => rem' = n]_vars
 \* Without a strobe the pulse ends after exactly n cycles: the hold-off only counts down.
-CountsDown == [][~strobe' => rem' = (IF rem > 0 THEN rem - 1 ELSE 0)]_vars
+CountsDown == [][~strobe' => rem' = (IF rem > 0 /\ ~rst THEN rem - 1 ELSE 0)]_vars
 =============================================================================
